@@ -681,6 +681,18 @@ def crash_site(exc):
     return site
 
 
+def crash_object(exc):
+    """The modeling object whose update_<attr> raised (innermost such frame), or None."""
+    tb = exc.__traceback__
+    obj = None
+    while tb is not None:
+        code = tb.tb_frame.f_code
+        if code.co_name.startswith("update_") and "/efootprint/" in code.co_filename:
+            obj = tb.tb_frame.f_locals.get("self")
+        tb = tb.tb_next
+    return obj
+
+
 class C15(FaultMonitorMixin, BaseMonitor):
     """A failed recomputation can always be recovered from."""
     prop = "C15"
@@ -789,7 +801,17 @@ class C15(FaultMonitorMixin, BaseMonitor):
             self.attempts_without_progress = getattr(self, "attempts_without_progress", 0) + 1
             site = crash_site(ret) or type(ret).__name__
             if len(self.broken) == 1 or self.attempts_without_progress > 3 * len(self.broken) + 3:
-                raise Violation("C15", "unrecoverable", {site},
+                oracle = "unrecoverable"
+                culprit = crash_object(ret)
+                try:
+                    if culprit is not None and not culprit.systems:
+                        # the object that cannot be recomputed is, once the previous value is back, used by no system:
+                        # it never was computable on its own (inputs nobody had computed yet), the failing edit
+                        # linked it in, and un-linking it recomputes it once more
+                        oracle = "unrecoverable_latent_failure_outside_system"
+                except Exception:
+                    pass
+                raise Violation("C15", oracle, {site},
                                 f"re-assigning the previous value of {self.revert_key(op)} raises "
                                 f"{type(ret).__name__}: {str(ret)[:160]} (failed inputs still installed: "
                                 f"{[self.revert_key(b[0]) for b in self.broken]})", i, op_kind(op))
@@ -1346,15 +1368,25 @@ class C19(BaseMonitor):
         base = self.res.header["spec"]
         salt = self.sim.salt
         self.variants = [("ids+creation-order as generated", self.sim, False)]
-        v1 = Sim(base, salt + ":ids-B")
-        self.variants.append(("other identifiers", v1, False))
-        v2 = Sim(base, salt, build=False)
-        v2.world = S.build_world(v2.spec, salt, perm=self.k.sub("creation-order"))
-        self.variants.append(("other creation order", v2, False))
-        psp = self.permute_spec(base)
-        v3 = Sim(psp, salt + ":ids-C", build=False)
-        v3.world = S.build_world(v3.spec, salt + ":ids-C", perm=self.k.sub("creation-order-2"))
-        self.variants.append(("other ids, creation order and order-irrelevant list orders", v3, True))
+        label = None
+        try:
+            label = "other identifiers"
+            v1 = Sim(base, salt + ":ids-B")
+            self.variants.append((label, v1, False))
+            label = "other creation order"
+            v2 = Sim(base, salt, build=False)
+            v2.world = S.build_world(v2.spec, salt, perm=self.k.sub("creation-order"))
+            self.variants.append((label, v2, False))
+            label = "other ids, creation order and order-irrelevant list orders"
+            psp = self.permute_spec(base)
+            v3 = Sim(psp, salt + ":ids-C", build=False)
+            v3.world = S.build_world(v3.spec, salt + ":ids-C", perm=self.k.sub("creation-order-2"))
+            self.variants.append((label, v3, True))
+        except Exception as e:
+            # the description was built under the ids / order as generated: whether it builds must not depend on them
+            raise Violation("C19", "build_depends_on_ids_or_order", {type(e).__name__},
+                            f"the model builds with ids and creation order as generated, but variant '{label}' raises "
+                            f"{type(e).__name__}: {str(e)[:200]}", -1, "initial")
         self.compare_variants(-1, {"op": "initial"})
 
     def next_op(self, i):
@@ -1372,6 +1404,7 @@ class C19(BaseMonitor):
         """The what-if values are calculated quantities too: they must not depend on ids / orders either."""
         from efsim.runner import watchdog
         snaps, statuses = [], []
+        vops = []
         for label, sim, perm in self.variants:
             vop = self.permute_op(op, sim.spec) if perm else op
             if perm:
@@ -1379,6 +1412,19 @@ class C19(BaseMonitor):
                     if ch["value"][0] == "refs" and ch["obj"] in sim.spec["objs"]:
                         vch["value"] = ["refs", self.permuted(ch["value"][1], sim.spec["objs"][ch["obj"]]["cls"], ch["attr"],
                                                               (ch["obj"], op.get("i")))]
+            vops.append(vop)
+        # a list change that only re-orders an order-irrelevant list is a change in one variant and the very same
+        # list (skipped by the library, and a simulation without any change raises) in another: not the same edit
+        noop_patterns = set()
+        for (label, sim, perm), vop in zip(self.variants, vops):
+            noop_patterns.add(tuple(
+                ch["value"][0] == "refs" and ch["obj"] in sim.spec["objs"]
+                and list(ch["value"][1]) == list(sim.spec["objs"][ch["obj"]]["attrs"][ch["attr"]][1])
+                for ch in vop["changes"]))
+        if len(noop_patterns) > 1:
+            self.res.count("skipped:reordering_is_a_noop_in_some_variant")
+            return "skip"
+        for (label, sim, perm), vop in zip(self.variants, vops):
             try:
                 with watchdog():
                     mu = sim.apply(vop)
